@@ -241,7 +241,7 @@ func VC12_upload() {
 	var got telemetry.Report
 	if vrt.IsSymbolic() {
 		v, ok := vjson.Lookup(bytes.TrimRight(nd.Data, "\n"))
-		vrt.Assert(ok, "the object holds an encoded report")
+		vrt.Assert(ok, "the object decodes")
 		if !ok {
 			return
 		}
@@ -285,4 +285,62 @@ func VC12_size() {
 		vrt.Assert(rerr != nil, "a body over the size limit is refused")
 		vrt.Assert(int64(got) <= limit, "no more than the limit is ever read")
 	}
+}
+
+// VC12_overwrite: a valid report for a week and X under which an object already exists
+// (an earlier upload of the same sample, longer or shorter than the new one): after the
+// 200 the object decodes to the report just sent.
+func VC12_overwrite() {
+	vos.Reset()
+	vjson.Reset()
+	ctx := context.Background()
+	bucket, err := storage.NewFSBucket(ctx, "/data", "up")
+	vrt.Assert(err == nil, "bucket")
+	if err != nil {
+		return
+	}
+	ucfg := c12config(1)
+	h := handleUpload(tconfig.NewConfig(ucfg), bucket)
+	x := []float64{0.5, 0.25, 1e-7}[vrt.Choose(3)]
+	sent := &telemetry.Report{Week: "2024-02-29", Config: "v1.2.3", X: x}
+	if vrt.Bool() {
+		sent.LastWeek = vrt.String(2)
+	}
+	var body []byte
+	if !vrt.IsSymbolic() {
+		body, _ = realjson.Marshal(sent)
+	}
+	vjson.DecodeHook = func(r io.Reader, dst any) error {
+		*(dst.(*telemetry.Report)) = *sent
+		return nil
+	}
+	// what an earlier upload left under the same name: 0, 1 or 3000 bytes
+	objPath := "/data/up/2024-02-29/" + fmt.Sprintf("%g", x) + ".json"
+	old := make([]byte, []int{0, 1, 3000}[vrt.Choose(3)])
+	for i := range old {
+		old[i] = 'o'
+	}
+	vos.AddDir("/data/up/2024-02-29")
+	vos.AddFile(objPath, old)
+	req := &http.Request{Method: "POST", URL: &url.URL{Path: "/upload/x"}, Body: io.NopCloser(bytes.NewReader(body))}
+	rw := &c12rw{}
+	content.HandlerFunc(h).ServeHTTP(rw, req)
+	vrt.Assert(rw.code == 200, "a valid report is acknowledged with 200 (object already present)")
+	nd := vos.Lookup(objPath)
+	vrt.Assert(nd != nil, "the object exists")
+	if nd == nil {
+		return
+	}
+	var got telemetry.Report
+	if vrt.IsSymbolic() {
+		v, ok := vjson.Lookup(bytes.TrimRight(nd.Data, "\n"))
+		vrt.Assert(ok, "after an overwrite the object decodes")
+		if !ok {
+			return
+		}
+		got = v.(telemetry.Report)
+	} else {
+		vrt.Assert(realjson.Unmarshal(nd.Data, &got) == nil, "after an overwrite the object decodes")
+	}
+	vrt.Assert(got.Week == sent.Week && got.Config == sent.Config && got.X == sent.X && got.LastWeek == sent.LastWeek && len(got.Programs) == 0, "after an overwrite the object decodes to the report just sent")
 }
